@@ -3,6 +3,7 @@ import random
 
 import cellkit as ck
 from pytoniq_core.boc import Cell
+from vlib import user_stack
 
 PROP = 'C01'
 TRACE_MODULE = 'C01Trace.tla'
@@ -68,11 +69,14 @@ def via_route(heap, route, rng):
                 raise
             _, _, objs = ck.project(parsed)
         elif route == 'copy':
-            objs = [o.copy() for o in objs]
+            with user_stack():
+                objs = [o.copy() for o in objs]
         elif route == 'slice':
-            objs = [o.begin_parse().to_cell() for o in objs]
+            with user_stack():
+                objs = [o.begin_parse().to_cell() for o in objs]
         elif route == 'tobuilder':
-            objs = [o.to_builder().end_cell() for o in objs]
+            with user_stack():
+                objs = [o.to_builder().end_cell() for o in objs]
         elif route == 'slice_from_cell':
             from pytoniq_core.boc import Slice
             objs = [Slice.from_cell(o).to_cell() for o in objs] + [Slice.from_cell(o).copy().to_cell() for o in objs]
@@ -186,6 +190,10 @@ def generate(tier, seed, ctx):
     for k in range(1, 1024):
         chain.append(ck.acell(ck.rand_bits(rng, rng.choice([0, 3, 8])), [k] if k % 5 else [k, k]))
     out.append(via_route(chain, 'builder', rng))
+    # ... copied, converted from a slice and through a builder, under the interpreter's DEFAULT recursion limit (the last cells of
+    # the chain are what the conversions touch; a conversion that walks the whole tree recursively cannot finish at this depth)
+    for route in ('copy', 'slice', 'tobuilder'):
+        out.append(via_route(chain[:], route, rng))
     if tier == 'thorough':
         out.append(via_route(chain, 'boc', rng))
     return [r for r in out if r is not None]
